@@ -139,7 +139,7 @@ pub fn c14n_twin_full_encoding_fails() {
 pub mod ioreader {
 	use crate::gen::iord::h_ioreader;
 	use parity_scale_codec::Compact;
-	#[kani::proof] #[kani::unwind(14)] pub fn c14t_ioreader_tuple() { h_ioreader::<(Compact<u32>, Option<u16>), 5>() }
+	#[kani::proof] #[kani::unwind(14)] pub fn c14t_ioreader_tuple() { h_ioreader::<(u8, Option<u16>), 4>() }
 	#[kani::proof] #[kani::unwind(14)] pub fn c14q_ioreader_opt_u16() { h_ioreader::<Option<u16>, 4>() }
 	#[kani::proof] #[kani::unwind(14)] pub fn c14q_ioreader_arr_u16() { h_ioreader::<[u16; 2], 5>() }
 	#[kani::proof] #[kani::unwind(14)] pub fn c14q_ioreader_arr_u8() { h_ioreader::<[u8; 4], 5>() }
